@@ -18,14 +18,15 @@ CALLEES = {'save_point', 'change_point', 'add_new_point', 'add_new_sample', 'swa
 TARGET_ATTRS = {'nf', 'nx', 'delta', 'rho', 'rhoend', 'rhobeg', 'maxfun', 'kopt', 'eval_num', 'nsamples', 'objsave', 'xsave',
                 'last_successful_iter', 'last_run_fixed_rho', 'total_unsuccessful_restarts', 'factorisation_current',
                 'rsave', 'points', 'fval_v', 'objval', 'jacsave', 'jacsave_eval_nums', 'nsamples_save', 'eval_num_save', 'model_jac', 'model_jac_eval_nums',
-                'model_const', 'xbase', 'sl', 'su'}
+                'model_const', 'xbase', 'sl', 'su', 'x', 'resid', 'obj', 'jacobian', 'nruns', 'flag', 'msg', 'xmin_eval_num', 'jacmin_eval_nums',
+                'diagnostic_info'}
 TARGET_NAMES = {'nruns_so_far', 'nf', 'nx', 'rhoend', 'rhobeg', 'exit_info', 'objfun', 'objfun_orig', 'xl_orig', 'xu_orig', 'xl', 'xu', 'x0',
                 'number_of_samples', 'num_samples_run', 'rvec_list', 'x', 'xnew', 'current_iter', 'nruns', 'maxfun', 'npt', 'user_params',
                 'scaling_changes', 'projections', 'params', 'xmin', 'rmin', 'objmin', 'jacmin', 'xmin_eval_num', 'jacmin_eval_nums',
                 'last_successful_run', 'total_unsuccessful_restarts', 'exit_flag', 'exit_msg', 'results', 'nsamples_min',
                 'rvec', 'obj', 'nsamples', 'x_eval_num', 'jac_eval_nums', 'xmin2', 'rmin2', 'objmin2', 'jacmin2', 'nsamples2',
                 'xmin_eval_num2', 'jacmin_eval_nums2', 'diagnostic_info', 'r0_avg', 'obj0_avg', 'nx_so_far', 'nf_so_far', 'x0_eval_num',
-                'xlb', 'xub', 'xp', 'bproj', 'xabs', 'ok_to_do_restart'}
+                'xlb', 'xub', 'xp', 'bproj', 'xabs', 'ok_to_do_restart', 'soln_dict', 'resid', 'jacobian', 'flag', 'msg', 'soln', 'output'}
 COMMITS = {'save_point', 'change_point', 'add_new_point'}
 FILES = ('util', 'model', 'controller', 'solver', 'trust_region', 'params', 'diagnostic_info')
 
@@ -147,7 +148,7 @@ class Walker:
                     while isinstance(base, ast.Subscript):
                         base = base.value
                     name = base.attr if isinstance(base, ast.Attribute) else (base.id if isinstance(base, ast.Name) else '?')
-                    if (isinstance(base, ast.Attribute) and name in TARGET_ATTRS) or (isinstance(base, ast.Name) and name in TARGET_NAMES):
+                    if (isinstance(base, ast.Attribute) and (name in TARGET_ATTRS or name.startswith('EXIT_'))) or (isinstance(base, ast.Name) and name in TARGET_NAMES):
                         self.assigns.append((self.mod, qual, name, ast.unparse(t), op, val, self.ordinal(qual, '=' + name), list(guards), s.lineno, ti, len(flat)))
                     if isinstance(s.value, ast.Lambda) and isinstance(t, ast.Name):
                         la = s.value.args
@@ -252,6 +253,61 @@ Open Scope string_scope.
 '''
 
 
+def bnd(node):
+    if isinstance(node, ast.Constant) and node.value is None:
+        return 'BNone'
+    if isinstance(node, ast.UnaryOp) and isinstance(node.op, ast.USub) and isinstance(node.operand, ast.Constant):
+        node = ast.Constant(value=-node.operand.value)
+    if isinstance(node, ast.Constant) and isinstance(node.value, bool):
+        return '(BOther %s)' % q(ast.unparse(node))
+    if isinstance(node, ast.Constant) and isinstance(node.value, int):
+        return '(BZ %s)' % zl(node.value)
+    if isinstance(node, ast.Constant) and isinstance(node.value, float):
+        from .py2coq import float_lit
+        m, e = float_lit(node.value)
+        return '(BF %s %s)' % (zl(m), zl(e))
+    return '(BOther %s)' % q(ast.unparse(node))
+
+
+def params_table(tree):
+    """rows of ParameterList.param_type: key, type string, None allowed, lower, upper; and the defaults' keys of __init__"""
+    rows, keys = [], []
+    for cls in [n for n in tree.body if isinstance(n, ast.ClassDef) and n.name == 'ParameterList']:
+        for fn in [k for k in cls.body if isinstance(k, ast.FunctionDef)]:
+            if fn.name == 'param_type':
+                for node in ast.walk(fn):
+                    if isinstance(node, ast.If) and isinstance(node.test, ast.Compare) and ast.unparse(node.test.left) == 'key' and \
+                            isinstance(node.test.comparators[0], ast.Constant):
+                        key = node.test.comparators[0].value
+                        st = [s for s in node.body if isinstance(s, ast.Assign)]
+                        if len(st) == 1 and isinstance(st[0].value, ast.Tuple) and len(st[0].value.elts) == 4 and \
+                                ast.unparse(st[0].targets[0]) == '(type_str, nonetype_ok, lower, upper)':
+                            t, nn, lo, hi = st[0].value.elts
+                            rows.append('  (%s, %s, %s, %s, %s)' % (q(key), q(ast.unparse(t).strip("'")), 'true' if ast.unparse(nn) == 'True' else 'false', bnd(lo), bnd(hi)))
+                        else:
+                            rows.append('  (%s, "?", false, (BOther "unrecognised row"), BNone)' % q(key))
+            if fn.name == '__init__':
+                for node in ast.walk(fn):
+                    if isinstance(node, ast.Assign) and isinstance(node.targets[0], ast.Subscript) and ast.unparse(node.targets[0].value) == 'self.params' and \
+                            isinstance(node.targets[0].slice, ast.Constant):
+                        keys.append(node.targets[0].slice.value)
+    return rows, keys
+
+
+def doc_exit_names():
+    import os, re
+    repo = os.environ.get('DFOLS_REPO', '/repo')
+    names = []
+    try:
+        txt = open(os.path.join(repo, 'docs', 'userguide.rst')).read()
+        for m in re.finditer(r'EXIT_[A-Z_]+', txt):
+            if m.group(0) not in names:
+                names.append(m.group(0))
+    except OSError:
+        pass
+    return names
+
+
 def generate(load):
     ws = []
     for f in FILES:
@@ -283,5 +339,9 @@ def generate(load):
     out.append(';\n'.join('  mk_dsite %s %s %s %s %s' % (q(m), q(fn), q(k), slist(ps), zl(line))
                           for w in ws for (m, fn, k, ps, line) in w.defs))
     out.append('].\n')
+    rows, keys = params_table(load('params'))
+    out.append('Definition T_params : list (string * string * bool * bnd * bnd) := [\n' + ';\n'.join(rows) + '].\n')
+    out.append('Definition T_param_defaults : list string := ' + slist(keys) + '.\n')
+    out.append('Definition T_doc_exit_names : list string := ' + slist(doc_exit_names()) + '.\n')
     n = sum(len(w.calls) + len(w.assigns) + len(w.returns) + len(w.regions) + len(w.defs) + len(w.flows) for w in ws)
     return '\n'.join(out), n
